@@ -167,7 +167,8 @@ impl C13 {
                         let net_n = Q::int(net).mul(&Q::int(10u128.pow(mx - p.asset_decimals[j] as u32)));
                         // small relative to the pool so that the curve's own impact is negligible
                         let small = Q::int(offer.amount.u128()).mul(&Q::int(10u128.pow(mx - p.asset_decimals[i] as u32))).mul(&Q::int(100)).le(&Q::new(num_bigint::BigInt::from(mnv.clone()), 1.into()));
-                        if near_peg && small && off_n.floor_u128() > 1000 {
+                        // amounts large enough that one smallest unit of either side is below 0.01%
+                        if near_peg && small && off_n.floor_u128() > 10_000 && net >= 10_000 && offer.amount.u128() >= 10_000 {
                             let loss = off_n.sub(&net_n).div(&off_n).max(&Q::zero());
                             if ok_actual && loss.cmp(&s.mul(&Q::int(4)).add(&Q::ratio(1, 1000))).is_gt() {
                                 let mut v = viol("C13.slippage_not_enforced", format!("stableswap {pool_id} decimals {:?}: offer {offer}, loss vs peg {:.6} > 4 x tolerance {:.6} but executed", p.asset_decimals, loss.to_f64(), s.to_f64()));
